@@ -89,3 +89,50 @@ Proof.
   - vm_compute; reflexivity.
   - vm_compute; reflexivity.
 Qed.
+
+(** the builder side of the link, header stage: whatever the strict builder returned (length and
+    digests left to its add-missing options), its final header - the digest fields it added
+    included - is accepted with no finding by header validation under every pair of spec /
+    unknown-type policies, and resolves to the same known record type as the fields given *)
+Require Import Proofs.ValidateProofs Proofs.BuiltValidProofs.
+Theorem C01_strictly_built_header_is_accepted_under_every_policy :
+  forall uni_lower uni_upper time_ok ip_ok uri_ok wid_ok mime_dec H b32 b64 http_req_ok http_resp_ok
+         o vid rt0 hs content new_id r fnd hs_out ps pu,
+    (vid = 1 \/ vid = 2) -> canonical field_table uni_lower hs ->
+    m_has field_table uni_lower n_content_length hs = false ->
+    m_has field_table uni_lower n_block_digest hs = false ->
+    m_has field_table uni_lower n_payload_digest hs = false ->
+    o_spec o = Fail -> o_unknown o = Fail -> o_syntax o = Fail ->
+    o_add_cl o = true -> o_add_digest o = true -> o_fix_wfblock o = false ->
+    (forall d, new_digest uni_lower uni_upper (o_alg o) (o_enc o) = Some d -> d_hash d = []) ->
+    build field_table required_fields uni_lower uni_upper time_ok ip_ok uri_ok wid_ok mime_dec H b32 b64
+          http_req_ok http_resp_ok o vid rt0 hs content new_id = (Ok r fnd, hs_out) ->
+    validate_header field_table required_fields uni_lower time_ok ip_ok uri_ok wid_ok ps pu vid (r_fields r) []
+      = Ok (rt_of uni_lower (r_fields r), r_fields r) [] /\
+    rt_of uni_lower (r_fields r) = rt_of uni_lower hs /\ rt_of uni_lower hs <> 0.
+Proof. intros. eapply built_header_accepted_everywhere; eassumption. Qed.
+Print Assumptions C01_strictly_built_header_is_accepted_under_every_policy.
+
+(** non-vacuity: a strict builder with the add-missing options on accepts this response *)
+Definition exb_opts := mkopts Fail Fail Fail Fail false true true true true true false false (bs "sha1") Base32.
+Definition exb_hs : fields :=
+  [(bs "WARC-Type", bs "response"); (bs "WARC-Date", bs "2017-03-06T04:03:53Z");
+   (bs "WARC-Target-URI", bs "http://example.com/a"); (bs "Content-Type", bs "application/http;msgtype=response")]%string.
+Definition exb_content : bytes := List.app (bs "HTTP/1.1 200 OK") (List.app [13;10] (List.app (bs "Content-Type: text/plain") (List.app [13;10;13;10] (bs "hello")))).
+Definition exb_h (a : alg) (s : bytes) : bytes := s.
+Definition exb_build := build field_table required_fields ex_idb ex_idb ex_yes ex_yes ex_yes ex_yes ex_nodec exb_h ex_nodec ex_nodec
+                              ex_yes ex_yes exb_opts 2 2 exb_hs exb_content (bs "urn:uuid:e9a0cecc-0221-11e7-adb1-0242ac120008").
+Example C01_strict_builder_hypotheses_are_satisfiable :
+  canonical field_table ex_idb exb_hs /\
+  m_has field_table ex_idb n_content_length exb_hs = false /\
+  (forall d, new_digest ex_idb ex_idb (o_alg exb_opts) (o_enc exb_opts) = Some d -> d_hash d = []) /\
+  is_ok (fst exb_build) = true /\
+  match fst exb_build with Ok r _ => N.of_nat (List.length (r_fields r)) = 8 | _ => False end.
+Proof.
+  split; [|split; [|split; [|split]]].
+  - intros f [<-|[<-|[<-|[<-|[]]]]]; vm_compute; reflexivity.
+  - vm_compute; reflexivity.
+  - intros d Hd. vm_compute in Hd. inversion Hd. reflexivity.
+  - vm_compute; reflexivity.
+  - vm_compute; reflexivity.
+Qed.
